@@ -51,6 +51,12 @@ func c17Configs(thorough bool) (cfgs []poolCfg, bounds []int) {
 		add(poolCfg{Min: 2, Max: 4, EM: engine.SortModel, Method: "Execute", Clients: [][]reqSpec{{ok}, {pn}, {ok}, {er}, {ok}}}, 2)
 		add(poolCfg{Min: 3, Max: 4, EM: engine.SortModel, Method: "Execute", Clients: [][]reqSpec{{ok, ok}, {ok}, {ok}, {ok}}}, 2)
 	}
+	// stop-on-error paths of the staged models: the failing request must not come back (and hand its
+	// instance on) while rules it started are still running
+	for _, meth := range []string{"ExecuteNConcurrentMConcurrent", "ExecuteNConcurrentMSort", "ExecuteNSortMConcurrent", "ExecuteSelectedNConcurrentMConcurrent", "ExecuteSelectedNConcurrentMSort"} {
+		add(poolCfg{Min: 1, Max: 2, EM: engine.SortModel, Method: meth, StopOnErr: true, NM: [2]int{2, 1}, Clients: [][]reqSpec{{pn}, {ok}}}, 1)
+		add(poolCfg{Min: 1, Max: 2, EM: engine.SortModel, Method: meth, StopOnErr: true, NM: [2]int{2, 1}, Clients: [][]reqSpec{{er, ok}}}, 1)
+	}
 	// every execute method: a client issuing ok / panicking / failing requests, then the conservation phase
 	for _, m := range gx.PoolMethods {
 		ems := []int{engine.SortModel}
@@ -94,7 +100,7 @@ func init() {
 		BudgetThor:  30 * time.Minute,
 		Kind:        "schedules",
 		Rule: "pools (1,2), (2,3), (1,3) [thorough also (2,4),(3,4)]: M+1 (and M+2) clients x 1 request and M clients x 2 requests through Execute / ExecuteRulesWithSpecifiedEM with every fault subset of size <=1 (2) (injected panic, rule error), every schedule with <=2 (thorough 3) deviations from the default scheduler (delay bounding) incl. the busy-wait loop (fair yield) and the asynchronous put goroutines; " +
-			"plus every one of the 24 execute methods x applicable execution models with ok/panicking/failing requests; after quiescence a conservation phase holds max requests inside a rule simultaneously (a lost instance = hang verdict). Oracle: in-flight rule bodies <= max, every request returns, errors only for a request's own faults, every rule body runs once",
+			"plus every one of the 24 execute methods x applicable execution models with ok/panicking/failing requests, and the stop-on-error paths of the five staged methods; after quiescence a conservation phase holds max requests inside a rule simultaneously (a lost instance = hang verdict). Oracle: in-flight rule bodies <= max, every request returns, errors only for a request's own faults, every rule body runs once, no rule of a request is still running after the request's pool call has returned",
 		Assume:  []string{"injected functions terminate", "sequentially consistent memory (races are C19's subject)", "a fresh pool is constructed per execution"},
 		Run:     func(c *hx.Ctx) { cfgs, b := c17Configs(c.Thorough()); runPoolConfigs(c, "C17", cfgs, b) },
 		Rebuild: rebuildPool,
